@@ -3,9 +3,7 @@ fn convert_base<const B: Word, const NewB: Word>(&self, repr: Repr<B>) -> Rounde
 /*@
     // the contract is spelled out in lib/fio_convbase.rs (shared with the public wrapper `with_base_and_precision`):
     //   cb_pre : B, NewB >= 2; the operand is in normal form; the case is one of the INTEGER-ONLY shortcuts (same base, an
-    //            infinity, NewB a power of B, B a power of NewB); KNOWN DEFECT REGION EXCLUDED: "same base" and "B a power
-    //            of NewB" return Exact(..) without looking at the target precision, so the value must fit it there;
-    //            exponent ranges
+    //            infinity, NewB a power of B, B a power of NewB); exponent ranges
     //   cb_post: the same infinity; otherwise exists (s1, e1) with s1 * NewB^e1 == sig * B^e and `ret` is ONE correct
     //            rounding of it to the target precision under R with a truthful flag (round_once); Exact results normalised
     requires cb_pre::<B, NewB>(self.precision, repr),
@@ -13,16 +11,21 @@ fn convert_base<const B: Word, const NewB: Word>(&self, repr: Repr<B>) -> Rounde
 @*/
 {
         /*@ broadcast use round_int_axioms, ax_ndigits; @*/
-        // shortcut if NewB is the same as B
+        // shortcut if NewB is the same as B (only the rounding to the target precision is left)
         if NewB == B {
             /*@ proof {
                 lemma_same_value_refl(B as int, repr.significand.v(), repr.exponent as int);
                 assert(xsame(B as int, NewB as int, repr.significand.v(), repr.exponent as int, repr.significand.v(), repr.exponent as int));
             } @*/
-            return Exact(Repr {
+            let repr = Repr {
                 significand: repr.significand,
                 exponent: repr.exponent,
-            });
+            };
+            return if repr.is_infinite() {
+                Exact(repr)
+            } else {
+                self.repr_round(repr)
+            };
         }
 
         // shortcut for infinities, no rounding happens but the result is inexact
@@ -67,13 +70,15 @@ fn convert_base<const B: Word, const NewB: Word>(&self, repr: Repr<B>) -> Rounde
                 let exp = repr.exponent * n as isize;
                 /*@ let ghost (sig0, e0) = (repr.significand.v(), repr.exponent as int); @*/
                 /*@ proof {
-                    // every normal form of the value is covered by the quantified preconditions
+                    // every representation Repr::new may return is the same number in the new base, inside the exponent
+                    // range, and zero only if the operand is zero
                     assert forall|s1: int, e1: int| #[trigger] same_value(NewB as int, s1, e1, sig0, exp as int)
-                        && sig_normal(NewB as int, s1)
-                        implies xsame(B as int, NewB as int, sig0, e0, s1, e1)
-                            && (self.precision == 0 || ndigits(NewB as int, s1) <= self.precision) by {}
+                        implies xsame(B as int, NewB as int, sig0, e0, s1, e1) && exp_in_range(NewB as int, s1, e1)
+                            && (s1 == 0 ==> sig0 == 0) by {
+                        if s1 == 0 { lemma_same_value_zero(NewB as int, s1, e1, sig0, exp as int); }
+                    }
                 } @*/
-                return Exact(Repr::new(repr.significand, exp));
+                return self.repr_round(Repr::new(repr.significand, exp));
             }
         }
 
@@ -95,7 +100,7 @@ fn convert_base<const B: Word, const NewB: Word>(&self, repr: Repr<B>) -> Rounde
             // if the exponent is small enough, directly evaluate the exponent
             if repr.exponent >= 0 {
                 let signif = repr.significand * Repr::<B>::BASE.pow(repr.exponent as usize);
-                Exact(Repr::new(signif, 0))
+                self.repr_round(Repr::new(signif, 0))
             } else {
                 let num = Repr::new(repr.significand, 0);
                 let den = Repr::new(Repr::<B>::BASE.pow(-repr.exponent as usize).into(), 0);
